@@ -52,15 +52,46 @@ def classes(seq):
     return [seen.setdefault(x, len(seen)) for x in seq]
 
 
+_PATCHED = []
+CDRAW_STRIDE = 10 ** 15 + 37     # the model's count for one number drawn by the caller (keeps stream positions apart)
+
+
+def patch_make_noise():
+    """record, at class level (the constructor already calls it), the generator state `_make_noise` draws from and the
+    parameters it uses: the observable behind the model's `noise=` / `npar=`"""
+    import hcipy
+    cls = hcipy.FiniteAtmosphericLayer
+    if _PATCHED and _PATCHED[0] is cls:
+        return
+    orig = cls._make_noise
+
+    def _make_noise(self):
+        self._verif_noise = (rng_state(self.rng), float(self.Cn_squared), float(self.L0))
+        self._verif_draws = getattr(self, '_verif_draws', 0) + 1
+        return orig(self)
+    cls._make_noise = _make_noise
+    _PATCHED[:] = [cls]
+
+
 def make_layer(case, cn2=None, grid=None, vel=None, L0=None):
     import hcipy
+    patch_make_noise()
     g = grid if grid is not None else mkgrid(case['nx'], case['ny'], case['dx'], case['dy'])
     v = np.array(case['vel'] if vel is None else vel, dtype=float)
     c = case['cn2'] if cn2 is None else cn2
     l0 = case['L0'] if L0 is None else L0
+    seed = case['seed']
+    gen = None
+    if case.get('seedobj'):
+        # the caller passes a Generator object and keeps it (ops ['cdraw', n] draw from it)
+        seed = gen = np.random.default_rng(case['seed'])
     if case['kind'] == 'finite':
-        return hcipy.FiniteAtmosphericLayer(g, c, l0, v, seed=case['seed'])
-    return hcipy.InfiniteAtmosphericLayer(g, c, l0, v, use_interpolation=bool(case['interp']), seed=case['seed'])
+        layer = hcipy.FiniteAtmosphericLayer(g, c, l0, v, seed=seed)
+    else:
+        layer = hcipy.InfiniteAtmosphericLayer(g, c, l0, v, use_interpolation=bool(case['interp']), seed=seed)
+    layer._verif_gen = gen
+    layer._verif_shared = gen is not None and layer._original_rng is gen
+    return layer
 
 
 # ---------------------------------------------------------------------------------------------
@@ -119,6 +150,8 @@ def run_layer(case, layer, k=1.0):
                     atm.outer_scale = op[1]
             elif op[0] == 'setvel':
                 layer.velocity = np.array(op[1], dtype=float)
+            elif op[0] == 'cdraw':
+                layer._verif_gen.normal(size=int(op[1]))
             else:
                 raise MachineryError('unknown op %r' % (op,))
         except ValueError:
@@ -135,6 +168,16 @@ def run_layer(case, layer, k=1.0):
         o['cn2'] = float(layer.Cn_squared)
         o['L0'] = float(layer.L0)
         o['vel'] = [float(x) for x in np.asarray(layer.velocity).ravel()]
+        gen = getattr(layer, '_verif_gen', None)
+        o['caller'] = rng_state(gen) if gen is not None else None
+        o['shared'] = bool(getattr(layer, '_verif_shared', False))
+        o['al'] = '%d%d%d' % (layer.rng is layer._original_rng, gen is not None and layer._original_rng is gen,
+                              gen is not None and layer.rng is gen)
+        if case['kind'] == 'finite':
+            o['noise'] = layer._verif_noise
+            o['draws'] = layer._verif_draws
+            o['valid'] = layer._noise is not None
+            o['cache'] = layer._achromatic_screen is not None
         if case['kind'] == 'infinite' and not (op[0] in ('evolve', 'sett') and len(op) > 2 and op[2] == 'q'):
             o['raw'] = np.array(layer._achromatic_screen, dtype=float)
         obs.append(o)
@@ -152,8 +195,13 @@ class Oracle:
         self.pre = 'fin' if self.kind == 'finite' else 'inf'
         self.counts = {}
         self._fresh = {}
+        self.cdrawn = False
 
     def fail(self, clause, what):
+        if self.cdrawn:
+            # everything that goes wrong after the caller drew from the Generator it passed as seed is one finding
+            what = 'the caller passed a Generator object as seed and drew from it afterwards; then [%s] %s' % (clause, what)
+            clause = 'caller-generator'
         key = '%s-%s' % (self.pre, clause)
         if not any(k == key for k, _ in self.bad):
             self.bad.append((key, what))
@@ -211,6 +259,7 @@ class Oracle:
         seq = []          # evolve times since the last reset
         seen = {}         # (realisation, seq, L0, velocity) -> [(Cn^2, screen)]
         seg_reads = []    # reads of the current segment: (clock, phase1)
+        moved_since_set = True   # finite layer: an evolve_until happened after the last parameter change
         where = '%s %s wind' % (self.shape_class(), self.wind_class())
         for i, o in enumerate(obs):
             op = o['op']
@@ -225,6 +274,10 @@ class Oracle:
                         return
                     clock = float(op[1])
                     seq.append(clock)
+                    moved_since_set = True
+            elif op[0] == 'cdraw':
+                self.cdrawn = True
+                self.cnt('caller draws from its generator')
             elif op[0] == 'reset':
                 if o['status'] != 'ok':
                     self.fail('raises', 'reset raised %s' % o['status'])
@@ -255,6 +308,7 @@ class Oracle:
                         self.fail('setter', 'MultiLayerAtmosphere.Cn_squared = %r did not rescale the layer in proportion (got %r)' % (op[1], o['cn2']))
                     other_c = other_c * op[1] / total
                 cur = want
+                moved_since_set = False
                 self.cnt('setter %s' % op[0])
             if o['t'] != clock:
                 self.fail('clock', 'after %r the layer reports t=%r, expected %r' % (op, o['t'], clock))
@@ -264,7 +318,18 @@ class Oracle:
                 self.fail('raises', 'phase_for raised %s on a %s layer' % (o['status'], where))
                 return
             if cur != par:
-                self.cnt('read with a parameter change pending (not judged)')
+                if self.kind == 'finite' and moved_since_set and real == 0:
+                    # a parameter was changed on the running layer and the layer was evolved since: the finite layer
+                    # re-draws the same realisation with the new parameters without rewinding, so it shows what a layer
+                    # freshly built with the current parameters shows at this time
+                    ref = self.fresh_screen(seq, cur)
+                    if not np.array_equal(ref, o['phase1']):
+                        self.fail('live-setter', 'after a parameter change on the running layer (no reset) and evolve_until(%r) the screen '
+                                  'differs from the screen of a freshly built layer with the same seed and the current parameters at that '
+                                  'time (max dev %.3g)' % (clock, np.abs(ref - o['phase1']).max()))
+                    self.cnt('read after a live parameter change vs fresh layer')
+                else:
+                    self.cnt('read with a parameter change pending (not judged)')
                 continue
             lam = float(op[1])
             s1 = o['phase1']
@@ -403,15 +468,20 @@ def judge(case):
 # ---------------------------------------------------------------------------------------------
 # model side of a layer history
 
-def layer_lines(case, obs):
-    p = 'C15 fin' if case['kind'] == 'finite' else 'C15 inf'
+def layer_lines(case, obs, layer=None):
+    heap = bool(case.get('heap'))
+    p = ('C15 hfin' if heap else 'C15 fin') if case['kind'] == 'finite' else ('C15 hinf' if heap else 'C15 inf')
+    kind = ''
+    if heap:
+        # which constructor ran is observed (`_original_rng is gen`), like the value a float setter ended up with
+        kind = ' int' if not case.get('seedobj') else ' genshared' if obs and obs[0].get('shared') else ' gen'
     if case['kind'] == 'finite':
-        lines = ['%s new %d %d %s %s %s %s %d' % (p, case['nx'], case['ny'], rat(case['vel'][0]), rat(case['vel'][1]),
-                                                 rat(case['cn2']), rat(case['L0']), case['seed'])]
+        lines = ['%s new%s %d %d %s %s %s %s %d' % (p, kind, case['nx'], case['ny'], rat(case['vel'][0]), rat(case['vel'][1]),
+                                                   rat(case['cn2']), rat(case['L0']), case['seed'])]
     else:
-        lines = ['%s new %d %d %s %s %s %s %s %s %d' % (p, case['nx'], case['ny'], rat(case['dx']), rat(case['dy']),
-                                                       rat(case['vel'][0]), rat(case['vel'][1]), rat(case['cn2']),
-                                                       rat(case['L0']), case['seed'])]
+        lines = ['%s new%s %d %d %s %s %s %s %s %s %d' % (p, kind, case['nx'], case['ny'], rat(case['dx']), rat(case['dy']),
+                                                         rat(case['vel'][0]), rat(case['vel'][1]), rat(case['cn2']),
+                                                         rat(case['L0']), case['seed'])]
     idx = []
     for op, o in zip(case['ops'], obs):
         if op[0] in ('evolve', 'sett'):
@@ -430,6 +500,10 @@ def layer_lines(case, obs):
             idx.append(len(lines)); lines.append('%s setl0 %s' % (p, rat(op[1])))
         elif op[0] == 'setvel':
             idx.append(len(lines)); lines.append('%s setvel %s %s' % (p, rat(op[1][0]), rat(op[1][1])))
+        elif op[0] == 'cdraw' and heap:
+            idx.append(len(lines)); lines.append('%s cdraw %d' % (p, int(op[1]) * CDRAW_STRIDE))
+        elif op[0] == 'read' and heap and case['kind'] == 'finite' and o['status'] == 'ok':
+            idx.append(len(lines)); lines.append('%s read' % p)
         else:
             idx.append(None)
     return lines, idx
@@ -447,6 +521,8 @@ def compare_layer(ctx, case, obs, out, idx):
     owner = {}       # float -> symbolic sample
     hist = 0
     sub = [Fraction(0), Fraction(0)]
+    heap = bool(case.get('heap'))
+    shown = []       # finite heap cases: (model's key of what a read shows, the screen read)
     for o, i in zip(obs, idx):
         if i is None:
             if case['kind'] == 'infinite' and o['op'][0] == 'read' and o['status'] == 'ok' and 'raw' in o:
@@ -484,6 +560,25 @@ def compare_layer(ctx, case, obs, out, idx):
         if 'sub' in kv:
             sub = parse_rat_list(kv['sub'])
         rng_m.append((kv['rng'], kv['orig'])); rng_r.append((o['rng'], o['orig']))
+        if case['kind'] == 'finite':
+            # the noise realisation: the stream state `_make_noise` last drew from joins the state classes, the parameters
+            # it used are compared exactly
+            rng_m.append((kv['noise'],)); rng_r.append((o['noise'][0],))
+            if [Fraction(o['noise'][1]), Fraction(o['noise'][2])] != parse_rat_list(kv['npar']):
+                ctx.disagree(stream, dict(detail, impl='noise made with Cn^2=%r L0=%r' % (o['noise'][1], o['noise'][2]))); return
+        if heap:
+            if kv['al'] != o['al']:
+                ctx.disagree(stream, dict(detail, impl='identities (rng is orig, orig is caller, rng is caller) = %s' % o['al'])); return
+            if (kv['caller'] == '-') != (o['caller'] is None):
+                ctx.disagree(stream, dict(detail, impl='caller generator %s' % ('absent' if o['caller'] is None else 'present'))); return
+            if o['caller'] is not None:
+                rng_m.append((kv['caller'],)); rng_r.append((o['caller'],))
+            if case['kind'] == 'finite':
+                if kv['valid'] != '%d' % o['valid'] or kv['cache'] != '%d' % o['cache']:
+                    ctx.disagree(stream, dict(detail, impl='_noise %s, _achromatic_screen %s' % (
+                        'present' if o['valid'] else 'None', 'present' if o['cache'] else 'None')), key='fin-lazy'); return
+                if o['op'][0] == 'read':
+                    shown.append((kv['shown'], o['phase1']))
         if case['kind'] == 'infinite':
             if o['op'][0] == 'reset':
                 hist = 0
@@ -507,6 +602,15 @@ def compare_layer(ctx, case, obs, out, idx):
                 if values.setdefault(s, v) != v or owner.setdefault(v, s) != s:
                     ctx.disagree(stream, dict(detail, model='sample %s' % s,
                                               impl='the floats do not sit where the model puts the samples')); return
+    # what the reads showed: the same model key (noise state, parameters of the noise, centre) <=> bit-equal screens
+    # (keys that differ only in the centre are not demanded to give different screens: still wind, whole periods)
+    for a in range(len(shown)):
+        for b in range(a):
+            ka, kb = shown[a][0], shown[b][0]
+            same = np.array_equal(shown[a][1], shown[b][1])
+            if ka == kb and not same or (ka.split('|')[:3] != kb.split('|')[:3] and same):
+                ctx.disagree(stream, {'case': case, 'model': 'reads show %s and %s' % (kb, ka),
+                                      'impl': 'screens %s' % ('bit-equal' if same else 'different')}, key='fin-lazy'); return
     # stream-state identities: the model says two states are equal exactly when the real generators are bit-equal
     flat_m = [x for pair in rng_m for x in pair]
     flat_r = [x for pair in rng_r for x in pair]
@@ -623,6 +727,41 @@ def gen_wind(rng, dx, dy):
     return [a * dx, b * dy]
 
 
+def decorate(rng, case, live=True):
+    """which model runs the case (value-level `fin`/`inf` or heap-level `hfin`/`hinf`), how the seed arrives (int or a
+    Generator object the caller keeps and draws from), parameter changes on the *running* finite layer"""
+    ops = case['ops']
+    case['heap'] = bool(rng.random() < 0.5)
+    if case['heap'] and rng.random() < 0.45:
+        case['seedobj'] = True
+        resets = [i for i, op in enumerate(ops) if op[0] == 'reset']
+        for _ in range(int(rng.integers(1, 4))):
+            # mostly just before a reset (where a shared generator shows), else anywhere
+            pos = int(rng.choice(resets)) if resets and rng.random() < 0.6 else int(rng.integers(0, len(ops) + 1))
+            ops.insert(pos, ['cdraw', int(rng.integers(1, 6))])
+            resets = [i for i, op in enumerate(ops) if op[0] == 'reset']
+    if case['heap'] and case['kind'] == 'finite' and live and rng.random() < 0.5:
+        ext = max(case['nx'] * case['dx'], case['ny'] * case['dy'])
+        for _ in range(int(rng.integers(1, 4))):
+            pos = int(rng.integers(0, len(ops) + 1))
+            kind_ = str(rng.choice(['setcn2', 'setcn2', 'setl0', 'setvel', 'setcn2m']))
+            if kind_ == 'setcn2':
+                new = [['setcn2', float(rng.integers(1, 64)) * 2.0 ** -44 * float(rng.choice([1.0, 4.0, 0.25]))]]
+            elif kind_ == 'setcn2m':
+                new = [['setcn2m', float(rng.integers(1, 64)) * 2.0 ** -42]]
+            elif kind_ == 'setl0':
+                new = [['setl0', float(rng.choice([3.0, 6.0, 12.0, 20.0])) * ext / 4.0, str(rng.choice(['L0', 'outer_scale', 'multi']))]]
+            else:
+                new = [['setvel', gen_wind(rng, case['dx'], case['dy'])]]
+            if rng.random() < 0.6:
+                new.append(['read', 1.0])                  # read with the change pending (cached screen / lazy re-draw)
+            if rng.random() < 0.6:
+                t = float(rng.integers(0, 5)) + (0.25 if rng.random() < 0.3 else 0.0)
+                new += [['evolve', t], ['read', float(rng.choice([1.0, 0.5]))]]
+            ops[pos:pos] = new
+    return case
+
+
 def gen_layer_case(rng, kind, big):
     nx, ny, dx, dy = gen_geometry(rng, big)
     vel = gen_wind(rng, dx, dy)
@@ -677,7 +816,7 @@ def gen_layer_case(rng, kind, big):
             else:
                 ops.append(['reset', bool(rng.random() < 0.25)])
     case['ops'] = ops
-    return case
+    return decorate(rng, case)
 
 
 def gen_late_case(rng, kind, style, big):
@@ -722,7 +861,7 @@ def gen_late_case(rng, kind, style, big):
             else:
                 ops.append(['evolve', t0 + i * dt, 'q'])
     case['ops'] = ops
-    return case
+    return decorate(rng, case, live=False)
 
 
 def gen_cross_case(rng, kind, big):
@@ -763,7 +902,7 @@ def gen_cross_case(rng, kind, big):
     ops += [['reset', False], ['evolve', ops[-2][1]], ['read', 1.0]]
     case['ops'] = ops
     case['extents'] = ms
-    return case
+    return decorate(rng, case, live=False)
 
 
 def gen_noise_case(rng, big):
@@ -828,6 +967,22 @@ DIRECTED = [
                                               ['evolve', 17.0], ['read', 1.0]], dx=0.25, dy=0.5), style='crossing'),
     dict(_layer('infinite', 8, 6, [-0.25, 0.0], [['read', 1.0], ['evolve', 7.0], ['read', 1.0], ['evolve', 9.0], ['read', 1.0], ['evolve', 15.0], ['read', 1.0],
                                                  ['evolve', 17.0], ['read', 1.0]]), style='crossing'),
+    # generators as heap cells: the seed is a Generator object the caller keeps drawing from
+    dict(_layer('finite', 6, 5, [0.25, 0.0], [['read', 1.0], ['evolve', 1.0], ['read', 1.0], ['cdraw', 3], ['reset', False], ['read', 1.0],
+                                              ['evolve', 1.0], ['read', 1.0], ['reset', True], ['read', 1.0], ['cdraw', 1], ['reset', False], ['read', 1.0]]),
+         heap=True, seedobj=True),
+    dict(_layer('infinite', 6, 5, [0.25, 0.0], [['read', 1.0], ['evolve', 1.0], ['read', 1.0], ['cdraw', 2], ['reset', False], ['read', 1.0],
+                                                ['evolve', 1.0], ['read', 1.0], ['reset', True], ['evolve', 2.0], ['read', 1.0], ['cdraw', 1],
+                                                ['reset', False], ['evolve', 2.0], ['read', 1.0]]), heap=True, seedobj=True),
+    dict(_layer('infinite', 5, 7, [0.0, -0.25], [['evolve', 2.0], ['read', 1.0], ['reset', False], ['evolve', 2.0], ['read', 1.0]]), heap=True),
+    # the finite layer's lazy noise and cached screen: parameter changes on the running layer
+    dict(_layer('finite', 6, 6, [0.25, 0.0], [['read', 1.0], ['setcn2', 2.0 ** -38], ['read', 1.0], ['evolve', 1.0], ['read', 1.0],
+                                              ['setl0', 4.0, 'outer_scale'], ['evolve', 2.0], ['read', 1.0], ['setvel', [0.0, 0.25]], ['read', 1.0],
+                                              ['evolve', 3.0], ['read', 1.0], ['setcn2', 2.0 ** -39], ['setcn2', 2.0 ** -40], ['reset', False],
+                                              ['read', 1.0], ['evolve', 3.0], ['read', 1.0]]), heap=True),
+    dict(_layer('finite', 5, 8, [0.0, 0.25], [['evolve', 1.0], ['setcn2m', 2.0 ** -39], ['evolve', 1.0], ['read', 1.0], ['read', 2.0],
+                                              ['setcn2', 2.0 ** -41], ['reset', True], ['read', 1.0], ['setl0', 5.0, 'L0'], ['evolve', 2.0],
+                                              ['read', 1.0]], k=2.0), heap=True, seedobj=True),
     {'kind': 'noise', 'cls': 'multiscale', 'nx': 8, 'ny': 6, 'dx': 0.25, 'dy': 0.25, 'q': 2, 'L0': 10.0, 'seed': 3, 'shift': [2.25, 0.0]},
     {'kind': 'noise', 'cls': 'multiscale', 'nx': 8, 'ny': 6, 'dx': 0.25, 'dy': 0.5, 'q': 2, 'L0': 10.0, 'seed': 3, 'shift': [4.0, -3.0]},
     {'kind': 'noise', 'cls': 'fft', 'nx': 6, 'ny': 8, 'dx': 0.25, 'dy': 0.25, 'q': 2, 'L0': 10.0, 'seed': 3, 'shift': [0.0, 10.25]},
@@ -861,6 +1016,10 @@ def handle(ctx, case, batch):
         if case.get('style'):
             ctx.count('%s:%s' % (case['kind'], case['style']))
             ctx.count('%s:late small steps' % case['kind'], sum(1 for op in case['ops'] if op[0] == 'evolve') - 1)
+        ctx.count('%s:model %s' % (case['kind'], 'heap (hfin/hinf)' if case.get('heap') else 'value (fin/inf)'))
+        if case.get('seedobj'):
+            ctx.count('%s:seed is a Generator object' % case['kind'])
+            ctx.count('%s:caller draws' % case['kind'], sum(1 for op in case['ops'] if op[0] == 'cdraw'))
         ctx.count('%s:parameter setters' % case['kind'], sum(1 for op in case['ops'] if op[0] in SET_OPS))
         ctx.count('%s:pixels %s' % (case['kind'], 'square' if case['dx'] == case['dy'] else 'non-square (dx != dy)'))
         # accumulated displacement in grid extents, and consecutive reads that straddle a multiple of the extent
